@@ -85,6 +85,8 @@ def pyval(kind, v, na_char):
         return int(v)
     if kind == "half":
         return v + 0.5
+    if kind == "whole":
+        return float(v)
     return bool(v)
 
 
@@ -146,11 +148,21 @@ def js_execute(rec, seed=0):
     try:
         fmt = JsonFormatter(fmt=dict(defaults) if (defaults or seed % 2) else None, datefmt=datefmt)
         r = logging.LogRecord("vp.monitor", logging.INFO, "vp", 0, msg, (data,) if data else ({},), None)
+        if seed % 2 == 0:
+            # the formatter serves a stream of records: an earlier one in the same second
+            # (other milliseconds, other data) must leave no trace in this one
+            r0 = logging.LogRecord("vp.monitor", logging.INFO, "vp", 0, "earlier", ({"k1": "tok9", "zz": "tok8"},), None)
+            r0.created = float(int(r.created)) + 0.004
+            r0.msecs = 4.0
+            r.created = float(int(r.created)) + 0.5
+            r.msecs = 500.0
+            fmt.format(r0)
         s = fmt.format(r)
         obj = json.loads(s)
         isobj = isinstance(obj, dict) and "\n" not in s
         if isobj:
-            tstr = fmt.formatTime(r, fmt.datefmt) if rec["addtime"] else None
+            # the time the logging module itself would print for this record
+            tstr = logging.Formatter(datefmt=(datefmt or None)).formatTime(r, datefmt or None) if rec["addtime"] else None
             for k, v in obj.items():
                 if isinstance(v, str) and v.startswith("tok") and v[3:].isdigit():
                     tok = int(v[3:])
@@ -175,8 +187,11 @@ def random_lp(rnd):
         return s
 
     def item(key):
-        kind = rnd.choice(["str", "str", "int", "half", "bool"])
-        v = txt(6, empty=True) if kind == "str" else (rnd.randrange(-50, 500) if kind == "int" else rnd.randrange(0, 500) if kind == "half" else rnd.random() < 0.5)
+        kind = rnd.choice(["str", "str", "int", "half", "bool", "whole", "int"])
+        # small numbers on purpose: 0 / 1 / 0.0 / 1.0 / False / True compare (and hash) equal in Python
+        small = rnd.random() < 0.5
+        v = (txt(6, empty=True) if kind == "str" else (rnd.randrange(0, 2) if small else rnd.randrange(-50, 500)) if kind == "int"
+             else rnd.randrange(0, 500) if kind == "half" else rnd.randrange(0, 3) if kind == "whole" else rnd.random() < 0.5)
         return [key, kind, v]
 
     keys = []
